@@ -189,9 +189,11 @@ def call(da, op, ds_accessor=False):
         return s.split(fmin=0.1, fmax=0.3, dmin=40.0, dmax=200.0)
     if op == "scale_by_hs":
         return s.scale_by_hs("0.5*hs+1", hs_min=1.0)
-    if op not in ("ptm1", "ptm1_smooth", "ptm2", "ptm2_smooth", "ptm3", "ptm3_smooth", "ptm4", "ptm5", "bbox", "ptm1_track", "rmse_rolled"):
+    if op not in ("ptm1", "ptm1_smooth", "ptm2", "ptm2_smooth", "ptm3", "ptm3_smooth", "ptm4", "ptm5", "bbox", "ptm1_track", "rmse_rolled", "hp01"):
         return getattr(s, op)()
-    w = wind_args(da) if op in ("ptm1", "ptm1_smooth", "ptm2", "ptm2_smooth", "ptm4") else None
+    w = wind_args(da) if op in ("ptm1", "ptm1_smooth", "ptm2", "ptm2_smooth", "ptm4", "hp01") else None
+    if op == "hp01":
+        return s.partition.hp01(w["wspd"], w["wdir"], w["dpt"], swells=2)
     if op == "rmse_rolled":
         # the other operand is a function of the labels (not a shifted copy: a shift would pair up the same way in every storage
         # order), stored with the directions rolled by three bins and the frequencies reversed
